@@ -248,7 +248,15 @@ impl Polynomial<Cmplx> {
             // take the sign that avoids cancellation, i.e. the candidate of larger modulus
             let ( plus, minus ) = ( d1 + sqrt, d1 - sqrt );
             let base = if plus.abs() >= minus.abs() { plus } else { minus } / 2.;
-            let k = base.pow( &Cmplx::new( 1. / 3.0, 0.0 ) );
+            // the cube root through the modulus: pow() squares the modulus, which underflows for |base| < 1.5e-162
+            // ( a triple root whose perturbation is a tiny part of one coefficient ) and made k = 0, d0 / k = NaN
+            let k = Cmplx::polar( base.abs().cbrt(), base.arg() / 3.0 );
+            if k == Cmplx::zero() { // d1 and the radicand underflowed: three equal roots to working precision
+                roots[0] = -b / ( 3. * a );
+                roots[1] = roots[0];
+                roots[2] = roots[0];
+                return roots;
+            }
             roots[0] = -(b + k + d0 / k) / ( 3. * a );
             let u = Cmplx::new( -0.5, (3.0_f64).sqrt() / 2.0 );
             roots[1] = -(b + u * k + d0 / ( u * k ) ) / ( 3. * a );
